@@ -102,6 +102,7 @@ func TestVerifC07(t *testing.T) {
 		}()
 		if panicked != "" {
 			fmt.Fprintf(w, "%s PANIC=%s\n", c.ID, panicked)
+			w.Flush()
 			continue
 		}
 		// tables for the packet as given
@@ -132,12 +133,13 @@ func TestVerifC07(t *testing.T) {
 		if o.Dials > 0 {
 			tgtOK = vfC09B(string(o.Target) == string(pkt))
 		}
-		line := fmt.Sprintf("%s auth=%s ci=%s disp=%s srv=%d tgtok=%s peerweb=%s uns=%s", c.ID, auth, cis, disp,
-			len(o.Peer), tgtOK, vfC09B(string(o.Peer) == "WEB"), vfC09B(o.Unsettled))
+		line := fmt.Sprintf("%s auth=%s ci=%s disp=%s srv=%d tgtok=%s peerweb=%s uns=%s dials=%d fdials=%d fpeerlen=%d", c.ID, auth, cis, disp,
+			len(o.Peer), tgtOK, vfC09B(string(o.Peer) == "WEB"), vfC09B(o.Unsettled), o.Dials, o.FinDials, len(o.FinPeer))
 		if o.Panicked != "" {
 			line += " PANIC=" + strings.ReplaceAll(o.Panicked, " ", "_")
 		}
 		// tables for what readFirstPacket extracts from the same bytes as a stream
 		fmt.Fprintf(w, "%s | %s | %s\n", line, tb, vfC09Tables(pkt, false, fac, c.Now))
+		w.Flush() // see c09_test.go: the first case without a line is the one that killed the process
 	}
 }
